@@ -15,7 +15,7 @@ class Sizeof(LetVar):
         self.name = name
         self.size = ceil(op.value_type.bit_width / 8)
 
-        LetVar.__init__(self, name, self.size, ValueType(True, 32))
+        LetVar.__init__(self, name, self.size, ValueType(False, 64))
 
     def __str__(self):
         return f"sizeof({self.size})"
